@@ -729,6 +729,9 @@ class Emitter:
         return '((%s)(((%s)%s) << %d) >> %d)' % (st, st, e, cb - b, cb - b)
 
     def bin_expr(s, op, t, a, b):
+        if op == 'sub' and getattr(s, 'ptrdiff', False) and a.kind == 'local' and b.kind == 'local' and a.name in getattr(s, 'p2i', {}) and b.name in s.p2i:
+            # opt-in (--ptrdiff): sub(ptrtoint p, ptrtoint q) stays a pointer difference (CBMC folds same-object offsets; through uintptr_t it cannot)
+            return s.mask('(uint64_t)((uint8_t*)%s - (uint8_t*)%s)' % (s.expr(s.p2i[a.name]), s.expr(s.p2i[b.name])), t)
         A, B = s.expr(a, t), s.expr(b, t)
         if isinstance(t, FpTy):
             o = {'fadd': '+', 'fsub': '-', 'fmul': '*', 'fdiv': '/'}.get(op)
@@ -828,9 +831,11 @@ class Emitter:
             return 'L_' + re.sub(r'[^A-Za-z0-9_]', '_', lab)
         # collect phis per block
         phis = {}
+        s.p2i = {}      # results of ptrtoint casts -> pointer operand (used by --ptrdiff)
         for lab, inss in blocks:
             for ins in inss:
                 if ins.op == 'phi': phis.setdefault(lab, []).append(ins)
+                elif ins.op == 'cast' and getattr(ins, 'cop', None) == 'ptrtoint' and ins.res: s.p2i[ins.res] = ins.a
         # loop cut: header blocks whose phis carry the requested source-variable names (-g)
         cutinfo = {}
         order = {lab: i for i, (lab, _) in enumerate(blocks)}
@@ -1396,6 +1401,7 @@ def main():
     ap.add_argument('--rpo', action='store_true', help='emit basic blocks in reverse post-order (fewer spurious backward gotos)')
     ap.add_argument('--vdispatch', action='store_true', help='dispatch virtual calls explicitly over the functions in the same vtable slot of this module')
     ap.add_argument('--typed-alloc', action='store_true', help='operator new / new[] with a non-literal size: allocate n elements of the type the result is used as')
+    ap.add_argument('--ptrdiff', action='store_true', help='emit sub(ptrtoint p, ptrtoint q) as the pointer difference p - q instead of subtracting uintptr_t values')
     ap.add_argument('--ptrcmp', action='store_true', help='emit <, <=, >, >= on pointers as pointer comparisons instead of comparing uintptr_t values')
     ap.add_argument('--wrap', action='append', default=[], help='sym: every call of sym goes to w_<sym> (defined by the harness/model); the real body is still emitted under its own name')
     a = ap.parse_args()
@@ -1418,7 +1424,7 @@ def main():
     e.rpo = a.rpo; e.vdispatch = a.vdispatch
     e.wraps = set('@' + w for w in a.wrap)
     e.typed_alloc = a.typed_alloc
-    e.ptrcmp = a.ptrcmp
+    e.ptrcmp = a.ptrcmp; e.ptrdiff = a.ptrdiff
     e.loopcuts = {}
     for lc in a.loopcut:
         fn, hook, vs = lc.split(':'); e.loopcuts.setdefault(fn, []).append(dict(hook=hook, vars=vs.split(',')))
